@@ -30,9 +30,6 @@ func c13ParamTerms(c *C13Case, q0, h0 map[string][]string, ck0 map[string][]stri
 		if p.Schema == nil || (p.In != "query" && p.In != "header" && p.In != "cookie") {
 			continue
 		}
-		if _, isObj := p.Schema.Default.(map[string]any); isObj {
-			continue // object defaults are outside Model/Defaults.populate (Go-side oracle c13DefaultIs)
-		}
 		// the same name declared twice in one location (shadowing aside) is outside the model
 		twice := false
 		for j := range c.Params {
@@ -89,6 +86,10 @@ func c13ParamTerms(c *C13Case, q0, h0 map[string][]string, ck0 map[string][]stri
 			for _, e := range d {
 				addDefault(e)
 			}
+		case map[string]any:
+			for _, k := range sortedKeys(d) {
+				addDefault(d[k])
+			}
 		default:
 			addDefault(d)
 		}
@@ -120,6 +121,11 @@ func c13ParamTerms(c *C13Case, q0, h0 map[string][]string, ck0 map[string][]stri
 		switch p.In {
 		case "query":
 			after = o.QueryAfter[name]
+			if obj, isObj := p.Schema.Default.(map[string]any); isObj && (p.Explode == nil || *p.Explode) {
+				// exploded: the members' names carry the default (the judge compares the parameter's own name,
+				// under which the model writes nothing either); checked member by member on the Go side (c13DefaultIs)
+				_ = obj
+			}
 		case "header":
 			after = o.HeaderAfter[name]
 		default:
